@@ -159,9 +159,9 @@ pub fn run(ctx: &Ctx) -> CheckResult {
     let th = ctx.tier_thorough;
     let set = [Regime::Extremes, Regime::Saw, Regime::Walk, Regime::Plateau, Regime::Spikes, Regime::Stair, Regime::ShortSaw, Regime::Tri4];
     let (k, total, periods, bases): (usize, usize, Vec<usize>, Vec<f64>) = if th {
-        (3, 2_000_000, vec![1, 2, 3, 5, 14, 50, 200, 1000], vec![1e-3, 0.7, 1.0, 1.1e6])
+        (3, 2_000_000, vec![1, 2, 3, 5, 14, 50, 200, 1000], vec![1e-3, 0.7, 1.0, 1.1e6, 3e-7])
     } else {
-        (2, 100_000, vec![1, 2, 4, 5, 14], vec![0.7, 1.1e6])
+        (2, 100_000, vec![1, 2, 4, 5, 14], vec![0.7, 1.1e6, 3e-7])
     };
     let ords = orderings(&set, k);
     let mut runs: Vec<LongRun> = vec![];
